@@ -61,6 +61,13 @@ func (w *Walker) loop(s ast.Stmt, in []*State) []*State {
 					}
 				}
 			}
+			// definition reading (DEF-COUNTS): the body is walked once for one arbitrary element — what the loop does to it
+			if w.A.oneIter && rng != nil {
+				w.A.oneIterN++
+				w.bindLoopVars(rng, table, st, fmt.Sprintf("one%d", w.A.oneIterN))
+				out = append(out, w.stmts(body.List, []*State{st})...)
+				continue
+			}
 			// a range over a short list written out in place (or returned as such by an accessor): one pass per element
 			if rng != nil && table != nil && w.listLit(table, rng) && !hasLoopBranch(body) {
 				cur := []*State{st}
